@@ -51,6 +51,15 @@ impl Transaction {
             r is Ok ==> final(conn)@ == self.cur(),
             r is Err ==> final(conn)@ == old(conn)@,
     { unimplemented!() }
+    /// `Transaction::rollback` (ROLLBACK) and `Transaction::finish` with the default
+    /// `DropBehavior::Rollback`: the working state is discarded; the stand-in transaction
+    /// does not borrow the connection, which therefore keeps the state it had
+    #[verifier::external_body]
+    pub fn rollback(self) -> (r: core::result::Result<(), SqlError>)
+    { unimplemented!() }
+    #[verifier::external_body]
+    pub fn finish(self) -> (r: core::result::Result<(), SqlError>)
+    { unimplemented!() }
 }
 impl Connection {
     /// `Connection::transaction(&mut self)`
@@ -95,7 +104,8 @@ impl Client {
 // ---- EventEntity: PINNED SQL ---------------------------------------------------------
 /// crates/database/src/entity/event.rs `EventEntity<'conn, C>`.  `new(&c)` remembers the
 /// state the handle sees (reads); R19: the functions that write are handed the
-/// transaction (`tx`) whose working state they change.
+/// transaction (`tx`) whose working state they change, as FIRST argument (the threading
+/// rewrite `events.f($args)` -> `events.f(&mut tx, $args)` then quotes no argument).
 pub struct EventEntity { pub snap: Ghost<DbV> }
 impl EventEntity {
     #[verifier::external_body]
@@ -108,7 +118,7 @@ impl EventEntity {
     /// <table> = `EventTable::from(log_type).as_str()`.  The WHERE clause names NO owner
     /// column: every row of the table with that hash is deleted.
     #[verifier::external_body]
-    pub fn delete_one(&self, log_type: EventLogType, commit_hash: &CommitHash, tx: &mut Transaction) -> (r: core::result::Result<(), SqlError>)
+    pub fn delete_one(&self, tx: &mut Transaction, log_type: EventLogType, commit_hash: &CommitHash) -> (r: core::result::Result<(), SqlError>)
         ensures r is Ok ==> final(tx).cur() == sql_delete_commit(old(tx).cur(), tbl_of(log_type), commit_hash.0@),
     { unimplemented!() }
 
@@ -119,14 +129,34 @@ impl EventEntity {
     /// alias (V1__base.sql): each new row gets an id above every id in the table, so the
     /// new rows follow all present rows in `ORDER BY event_id ASC`.
     #[verifier::external_body]
-    pub fn insert_events(&self, log_type: EventLogType, account_or_folder_id: i64, events: &[EventRecordRow], tx: &mut Transaction) -> (r: core::result::Result<Vec<i64>, SqlError>)
+    pub fn insert_events(&self, tx: &mut Transaction, log_type: EventLogType, account_or_folder_id: i64, events: &[EventRecordRow]) -> (r: core::result::Result<Vec<i64>, SqlError>)
         ensures r is Ok ==> final(tx).cur() == sql_insert(old(tx).cur(), tbl_of(log_type), account_or_folder_id as int, rowvs(events@)),
+    { unimplemented!() }
+
+    /// event.rs `insert_account_events` / `insert_folder_events` / `insert_device_events` /
+    /// `insert_file_events`: `self.insert_events(<fixed log type>, id, events)` with
+    /// EventLogType::Account / ::Identity (sic, event.rs:261) / ::Device / ::Files
+    #[verifier::external_body]
+    pub fn insert_account_events(&self, tx: &mut Transaction, account_id: i64, events: &[EventRecordRow]) -> (r: core::result::Result<Vec<i64>, SqlError>)
+        ensures r is Ok ==> final(tx).cur() == sql_insert(old(tx).cur(), tbl_of(EventLogType::Account), account_id as int, rowvs(events@)),
+    { unimplemented!() }
+    #[verifier::external_body]
+    pub fn insert_folder_events(&self, tx: &mut Transaction, folder_id: i64, events: &[EventRecordRow]) -> (r: core::result::Result<Vec<i64>, SqlError>)
+        ensures r is Ok ==> final(tx).cur() == sql_insert(old(tx).cur(), tbl_of(EventLogType::Identity), folder_id as int, rowvs(events@)),
+    { unimplemented!() }
+    #[verifier::external_body]
+    pub fn insert_device_events(&self, tx: &mut Transaction, account_id: i64, events: &[EventRecordRow]) -> (r: core::result::Result<Vec<i64>, SqlError>)
+        ensures r is Ok ==> final(tx).cur() == sql_insert(old(tx).cur(), tbl_of(EventLogType::Device), account_id as int, rowvs(events@)),
+    { unimplemented!() }
+    #[verifier::external_body]
+    pub fn insert_file_events(&self, tx: &mut Transaction, account_id: i64, events: &[EventRecordRow]) -> (r: core::result::Result<Vec<i64>, SqlError>)
+        ensures r is Ok ==> final(tx).cur() == sql_insert(old(tx).cur(), tbl_of(EventLogType::Files), account_id as int, rowvs(events@)),
     { unimplemented!() }
 
     /// pinned SQL (event.rs `delete_all_events`):
     ///   "DELETE FROM <table> WHERE <id_column>=?1"            bound: [account_or_folder_id]
     #[verifier::external_body]
-    pub fn delete_all_events(&self, log_type: EventLogType, account_or_folder_id: i64, tx: &mut Transaction) -> (r: core::result::Result<usize, SqlError>)
+    pub fn delete_all_events(&self, tx: &mut Transaction, log_type: EventLogType, account_or_folder_id: i64) -> (r: core::result::Result<usize, SqlError>)
         ensures r is Ok ==> final(tx).cur() == sql_delete_owner(old(tx).cur(), tbl_of(log_type), account_or_folder_id as int),
     { unimplemented!() }
 
@@ -227,16 +257,25 @@ impl CommitTree {
 }
 
 // ---- std helpers (R12: exact std meaning) -----------------------------------------------------
-/// R12: `$xs.iter().map(|c| *c.as_ref()).collect::<Vec<_>>()` on `Vec<CommitHash>`: the wrapped hashes, in order
-#[verifier::external_body]
-pub fn vmap_as_ref(xs: &Vec<CommitHash>) -> (r: Vec<TreeHash>)
-    ensures r@.len() == xs@.len(), forall|i: int| 0 <= i < xs@.len() ==> #[trigger] r@[i] == xs@[i].0,
-{ unimplemented!() }
-/// R12: `$xs.iter().map(|r| *r.commit()).collect::<Vec<_>>()` on `Vec<EventRecord>`: the commit hashes, in order
-#[verifier::external_body]
-pub fn vrecord_commits(xs: &Vec<EventRecord>) -> (r: Vec<CommitHash>)
-    ensures r@.len() == xs@.len(), forall|i: int| 0 <= i < xs@.len() ==> (#[trigger] r@[i]).0@ == xs@[i]@.commit,
-{ unimplemented!() }
+/// R12: `$xs.iter().map(|x| $f).collect::<Vec<_>>()` on a `Vec`: `f` applied to every element, in
+/// order (verified, not assumed).  The closure `$f` stays extracted code; the rewrite gives it
+/// a parameter type and an `ensures` that Verus checks against the real body.
+pub fn vmap_iter<A, B, F: Fn(&A) -> B>(f: F, xs: &Vec<A>) -> (r: Vec<B>)
+    requires forall|a: &A| call_requires(f, (a,)),
+    ensures r@.len() == xs@.len(), forall|i: int| 0 <= i < xs@.len() ==> call_ensures(f, (&xs@[i],), #[trigger] r@[i]),
+{
+    let mut out: Vec<B> = Vec::new();
+    let mut i: usize = 0;
+    while i < xs.len()
+        invariant i <= xs@.len(), out@.len() == i, forall|a: &A| call_requires(f, (a,)),
+            forall|j: int| 0 <= j < i ==> call_ensures(f, (&xs@[j],), #[trigger] out@[j]),
+        decreases xs@.len() - i,
+    {
+        out.push(f(&xs[i]));
+        i += 1;
+    }
+    out
+}
 /// R12: `$s.to_vec()` on `&[EventRecord]` (alloc::slice::to_vec: clones every element; `#[derive(Clone)]`)
 #[verifier::external_body]
 pub fn vto_vec_records(s: &[EventRecord]) -> (r: Vec<EventRecord>)
